@@ -364,6 +364,10 @@ fn replay(rt: &dyn Runtime, actions: &[Action], pos: &mut usize, out: &mut Optio
     }
 }
 
+/// Histories up to this length are executed a second time with observations on every intermediate stack
+/// (quick: 4, thorough: all).
+pub static OBSERVED_MAX_LEN: std::sync::atomic::AtomicUsize = std::sync::atomic::AtomicUsize::new(usize::MAX);
+
 /// Executes the history on the real types; `None` = conforms to the model.
 pub fn conform(abs: &Abs, history: &[Action]) -> Option<String> {
     let r = guard(|| {
@@ -381,7 +385,7 @@ pub fn conform(abs: &Abs, history: &[Action]) -> Option<String> {
     };
     // the same history once more on fresh objects, this time looking at every intermediate stack on the way: the
     // final answers must be the same (an optional lookup that missed must not be remembered past a later write)
-    if history.len() > 1 {
+    if history.len() > 1 && history.len() <= OBSERVED_MAX_LEN.load(Ordering::Relaxed) {
         let r2 = guard(|| {
             let base = real_object(&BASE_DATA);
             let rt = RuntimeBuilder::new().set_globals(&base).build();
@@ -575,9 +579,10 @@ fn summarize<C: Checker<StackModel>>(checker: C) -> (u64, u64, u64, usize, Optio
 }
 
 pub fn run(tier: Tier) -> i32 {
+    OBSERVED_MAX_LEN.store(if tier.thorough() { usize::MAX } else { 4 }, Ordering::Relaxed);
     let report = Report::new("C18", tier, "model_checking");
     let (max_layers, max_ops) = if tier.thorough() { (4, 6) } else { (3, 5) };
-    report.set_rule("explicit-state model: state = stack of pushed layers (plain / sandboxed / global, each over all 9 maps of 2 names x {absent, scalar, object}) + the builder's global map + counters + operation count; 32 actions (push plain/sandbox x 9 maps, push global, pop, assign-global x 8 incl. two value coincidences - the integer a counter holds and the text a pushed layer holds -, set-counter x 4); every transition re-executes the whole history on the real RuntimeBuilder/StackFrame/SandboxedStackFrame/GlobalFrame types and compares get/try_get of every path of length 1..2 over {a,b,k,zz,size,first} x {a,b,k,size}, roots() and get_index with the model; every history is executed a second time with the same observations made on every intermediate stack (final answers must not change); states = unique abstract states, transitions = successor computations (each replayed), traces_validated = replays");
+    report.set_rule("explicit-state model: state = stack of pushed layers (plain / sandboxed / global, each over all 9 maps of 2 names x {absent, scalar, object}) + the builder's global map + counters + operation count; 32 actions (push plain/sandbox x 9 maps, push global, pop, assign-global x 8 incl. two value coincidences - the integer a counter holds and the text a pushed layer holds -, set-counter x 4); every transition re-executes the whole history on the real RuntimeBuilder/StackFrame/SandboxedStackFrame/GlobalFrame types and compares get/try_get of every path of length 1..2 over {a,b,k,zz,size,first} x {a,b,k,size}, roots() and get_index with the model; every history (quick: of up to 4 operations) is executed a second time with the same observations made on every intermediate stack (final answers must not change); states = unique abstract states, transitions = successor computations (each replayed), traces_validated = replays");
     report.assume("state identity is the abstract state; sound because every transition proves the real observations are a function of it; guarded by an un-deduplicated enumeration of all operation sequences and by running BFS and DFS and comparing unique-state counts");
     let threads = crate::run::threads();
     let mut counts = Vec::new();
